@@ -151,7 +151,13 @@ func VH_C33_PolygonWinding() {
 	vStub("diagonal.works/b6/renderer.projectLoop", project)
 	outer := s2.LoopFromPoints([]s2.Point{s2.PointFromLatLng(s2.LatLngFromDegrees(0, 0)), s2.PointFromLatLng(s2.LatLngFromDegrees(0, 3)), s2.PointFromLatLng(s2.LatLngFromDegrees(3, 0))})
 	hole := s2.LoopFromPoints([]s2.Point{s2.PointFromLatLng(s2.LatLngFromDegrees(0.5, 0.5)), s2.PointFromLatLng(s2.LatLngFromDegrees(1, 0.5)), s2.PointFromLatLng(s2.LatLngFromDegrees(0.5, 1))})
-	polygon := s2.PolygonFromOrientedLoops([]*s2.Loop{outer, hole})
+	loops := []*s2.Loop{outer, hole}
+	if vBool("island") {
+		// a shell nested inside the hole (depth 2): again an outer ring
+		island := s2.LoopFromPoints([]s2.Point{s2.PointFromLatLng(s2.LatLngFromDegrees(0.6, 0.6)), s2.PointFromLatLng(s2.LatLngFromDegrees(0.6, 0.7)), s2.PointFromLatLng(s2.LatLngFromDegrees(0.7, 0.6))})
+		loops = append(loops, island)
+	}
+	polygon := s2.PolygonFromOrientedLoops(loops)
 	e := NewEncoder(ox, oy, "layer", 1<<TileExtent)
 	simplifyAndEncodePolygon(polygon, e, nil)
 	vReach("encoded")
